@@ -98,6 +98,16 @@ def main():
             name = name or '%s-%s' % (prop, time.strftime('%H%M%S'))
             dst = os.path.join(HERE, 'seeded', name)
             os.makedirs(dst, exist_ok=True)
+            # the verdict of the check as it stood when it first saw this change is kept
+            meta['first_result'] = meta['check']['verdict']
+            try:
+                prev = json.load(open(os.path.join(dst, 'meta.json')))
+                meta['first_result'] = prev.get('first_result') or prev['check']['verdict']
+            except Exception:
+                pass
+            notes = meta.get('needs_to_manifest', '')
+            lines = [l.strip(' -*#') for l in notes.splitlines() if l.strip(' -*#')]
+            meta['summary'] = ' '.join(lines[:3])[:260]
             shutil.copy(patch, os.path.join(dst, 'patch.diff'))
             shutil.copy(demo, os.path.join(dst, 'demo.py'))
             if os.path.exists(os.path.join(src, 'notes.md')):
